@@ -180,6 +180,21 @@ impl Property for C09 {
                 return o;
             }
         };
+        // what the library wrote it must also be able to read through its own entry points (slice and streaming reader)
+        if wire.len() > 65536 {
+            o.class("wire-document-larger-than-64KiB");
+        }
+        for (name, r) in [
+            ("Json::from_slice", Json::from_slice::<Metablock>(&wire).map_err(|e| e.to_string())),
+            ("Json::from_reader", Json::from_reader::<_, Metablock>(std::io::Cursor::new(&wire)).map_err(|e| e.to_string())),
+            ("JsonPretty::from_reader", JsonPretty::from_reader::<_, Metablock>(&wire[..]).map_err(|e| e.to_string())),
+        ] {
+            match r {
+                Ok(b) if b == back => {}
+                Ok(_) => o.fail(format!("C09/wire/{}-reads-another-value", name), format!("{} bytes", wire.len()), "the same block as serde_json::from_slice"),
+                Err(e) => o.fail(format!("C09/wire/{}-cannot-read-own-output", name), format!("{} ({} bytes written by {:?})", e, wire.len(), spec.wire), "the block"),
+            }
+        }
         let pubs: Vec<PublicKey> = spec.signers.iter().map(public).collect();
         let n = pubs.len() as u32;
         if let Err(e) = back.verify(n, pubs.iter()) {
